@@ -244,7 +244,9 @@ def reshape(v, groups):
                 continue
             if pos >= len(atoms):
                 raise LegError(f'reshape: ran out of legs while matching dimension {sym}')
-            if atoms[pos].dim != sym:
+            lg_ = atoms[pos]
+            same = (lg_.dim == sym) or (lg_.charge is not None and sym == f'len({lg_.charge[1]})')
+            if not same:
                 raise LegError(f'reshape: dimension {sym} requested where the next leg {atoms[pos]} has dimension '
                                f'{atoms[pos].dim} (row-major order of {[(str(a), a.dim) for a in atoms]})')
             ax.append(atoms[pos])
